@@ -16,6 +16,7 @@ Assumptions (A5, A6 of DESIGN.md): int is mathematical in index arithmetic (over
 real; variables declared inside an `omp parallel` region are private; distinct pointer parameters do not alias unless the
 contract says so; calls to dgemm_ are atomic events with the reference-BLAS meaning.
 """
+import re
 from fractions import Fraction as Q
 
 from pyvc import terms as tm
@@ -734,6 +735,10 @@ class CSym(object):
                 envA[name] = e
             elif isinstance(cur, Undef):
                 entry[name] = None
+            elif isinstance(cur, Struct) and all(isinstance(fv_, Undef) for fv_ in cur.fields.values()):
+                # a struct object declared without initialiser and assigned as a whole inside the loop: no value is carried in
+                entry[name] = None
+                envA[name] = Undef(name)
             else:
                 raise CUnsupported("loop-carried variable %s of unsupported kind" % name)
         envA[var] = v
@@ -1029,8 +1034,17 @@ class CSym(object):
                     fields = t_.structs[sname]
                     break
             if sname is not None:
-                # (T *)malloc(sizeof(T)): a fresh struct object with uninitialised fields
-                return Struct(sname, {f: Undef(f) for f, _ in fields})
+                # (T *)malloc(sizeof(T)): a fresh struct object with uninitialised fields; a member declared `T name[N]` is an array of capacity N inside it
+                vals = {}
+                for f, fty in fields:
+                    m_ = re.match(r"^\s*([A-Za-z_][A-Za-z0-9_ ]*?)\s*\[(\d+)\]\s*$", fty or "")
+                    if m_:
+                        base_t = m_.group(1).replace("const ", "").strip()
+                        arr_ = Arr("%s.%s" % (sname, f), "int" if is_int_type(base_t) else "double", tm.const(int(m_.group(2))), origin="member")
+                        vals[f] = Ptr(arr_)
+                    else:
+                        vals[f] = Undef(f)
+                return Struct(sname, vals)
         if isinstance(v, Ptr) and "*" in ty:
             kind = "double" if "double" in ty else "int" if "int" in ty else v.arr.kind
             if v.arr.kind in ("raw", "void"):
